@@ -41,6 +41,8 @@ def run(ctx):
     c03.r39(ctx, 'R11.8')
     r119(ctx)
     r1110(ctx)
+    from . import c04 as _c04
+    _c04.r41(ctx, ctx.repo['writer'])
     from . import callsigs as _cs
     _cs.general_rules(ctx, 'R11', ['core', 'encoding', 'writer.make_definitions', 'writer.encode_dict', 'writer.encode_plain', 'writer.convert'])
     ctx.exhaustive = True
